@@ -96,6 +96,8 @@ def _duration_bounds_interrupted(ctx, run, groups, where, location):
                 alts = [body[2], body[3]]
             for alt in alts:
                 core = alt[3] if is_app(alt, "Implies") else alt
+                if is_app(core) and core[1] in (">=", "<=") and len(core) == 4 and core[3] == A(task, "_duration"):
+                    core = app({">=": "<=", "<=": ">="}[core[1]], core[3], core[2])
                 if not (is_app(core) and core[1] in (">=", "<=") and len(core) == 4 and core[2] == A(task, "_duration")):
                     continue
                 rhs = core[3]
@@ -306,6 +308,8 @@ def r_workload(ctx):
         ok_sum = False
         for g_ in got:
             ca = canon_atom(g_)
+            if is_app(g_) and g_[1] in ("==", "<=", ">=") and len(g_) == 4 and is_app(g_[3], "Sum") and not is_app(g_[2], "Sum"):
+                g_ = app({"==": "==", "<=": ">=", ">=": "<="}[g_[1]], g_[3], g_[2])
             if is_app(g_) and g_[1] in ("==", "<=", ">=") and len(g_) == 4 and is_app(g_[2], "Sum") and len(g_[2]) == 3 \
                     and g_[2][2][0] == "each" and g_[2][2][3][0] == "z3var" and not g_[2][2][2]:
                 inner_iters = [show(_erase(l[3])) for l in g_[2][2][1]]
@@ -501,10 +505,13 @@ def r_loopvar(ctx, bases=("Constraint", "Indicator", "Objective"), solver=False)
                     for x in subterms(v):
                         if x and x[0] == "loopout" and x[3] == ("k", "<unbound>"):
                             found.setdefault((f"SchedulingSolver.{m}", x[1]), f"processscheduler/solver.py:{ev.site.lineno}")
+    by_where = {}
     for (where, var), location in sorted(found.items()):
-        ctx.violation("R-LOOPVAR", where, f"loop variable {var} used after its loop",
-                      f"`{var}` is only bound as a loop variable and is read after the loop to build an emitted term: the term "
-                      f"speaks about the last element only", location)
+        by_where.setdefault(where, ([], location))[0].append(var)
+    for where, (vars_, location) in sorted(by_where.items()):
+        ctx.violation("R-LOOPVAR", where, "loop variable used after its loop in an emitted term",
+                      f"{', '.join('`' + v + '`' for v in vars_)} {'is' if len(vars_) == 1 else 'are'} only bound as loop variable(s) and "
+                      f"read after the loop to build an emitted term: the term speaks about the last element only", location)
     ctx.floor("R-LOOPVAR", "paths scanned", n, 200 if bases else 1)
     if not found:
         ctx.ok("R-LOOPVAR", f"no emitted term uses an escaped loop variable ({n} paths)")
@@ -552,7 +559,8 @@ def r_periodic_struct(ctx):
             want_mask.append(norm(ge(idx(b, 0), T("end"))))
         cores = [d for d in disj if "%" in show(d)]
         masks = [norm(d) for d in disj if "%" not in show(d)]
-        ok = len(cores) == 1 and sorted(map(show, masks)) == sorted(map(show, want_mask))
+        from sa.decide import canon as _canon
+        ok = len(cores) == 1 and sorted(repr(_canon(m)) for m in masks) == sorted(repr(_canon(m)) for m in want_mask)
         used = show(cores[0]) if cores else ""
         params_ok = all(p_ in used for p_ in ("self.period", "self.offset")) and show(idx(itv, 0)) in used and show(idx(itv, 1)) in used \
             and show(idx(b, 0)) in used and show(idx(b, 1)) in used
@@ -569,4 +577,52 @@ def r_periodic_struct(ctx):
              "domain and is not decided: only fan-out, parameters used, activity mask and rejection of unassigned resources are")
 
 
-RULES = [r_rc_relation, r_attr, r_union_exh, lambda ctx: r_loopvar(ctx, bases=("Constraint",)), r_periodic_struct]
+def r_sibling_periodic(ctx):
+    """Engler-style sibling cross-check: ResourcePeriodicallyUnavailable and the fixed-duration branch of
+    ResourcePeriodicallyInterrupted both say 'the folded busy interval does not meet the interval'; the two encodings must
+    be the same function of (busy start, busy end, lo, hi, offset, period). (Their arithmetic itself is not decided.)"""
+    from sa.decide import canon
+    def core_of(cname, pick):
+        runs = runs_of(ctx, Entry("init", cls=cname, opaque=OPAQUE))
+        fails_closed(ctx, "R-SIBLING-PERIODIC", runs)
+        out = []
+        for run in mandatory_runs(runs):
+            if dict(run.decisions).get("isinstance(self.resource, Worker)") is not True:
+                continue
+            for e in run.emissions:
+                if e.owner != SELF:
+                    continue
+                for s_ in subterms(e.term):
+                    if is_app(s_, "Xor") and len(s_) == 4 and "%" in show(s_) and pick(s_):
+                        out.append((run, e, s_))
+        return out
+    def generic(t):
+        """rename the busy tuple and the interval element to fixed symbols"""
+        m = {}
+        for s_ in subterms(t):
+            if s_ and s_[0] == "idx" and is_const(s_[2]) and s_[2][1] in (0, 1) and isinstance(s_[1], tuple) and s_[1]:
+                base = s_[1]
+                its = " ".join(show(x[3]) for x in subterms(base) if x and x[0] == "loop")
+                if "_busy_intervals" in its and not (base[0] == "elem" and ".items()" in its):
+                    m[s_] = ("sym", f"busy{s_[2][1]}")
+                elif base[0] == "elem" and "list_of_time_intervals" in its:
+                    m[s_] = ("sym", f"itv{s_[2][1]}")
+        return substitute(t, m)
+    a = core_of("ResourcePeriodicallyUnavailable", lambda x: True)
+    b = core_of("ResourcePeriodicallyInterrupted", lambda x: "busy1" in show(generic(x)) and is_app(x[2]) and x[2][1] in (">=", "<=") and is_app(x[3]) and x[3][1] in (">=", "<="))
+    # the fixed-duration (non interruptible) condition is the Xor of `folded start >= hi` and `folded start + duration <= lo`
+    if not a or not b:
+        raise P.AnalysisError(f"R-SIBLING-PERIODIC: cores found: unavailable {len(a)}, interrupted {len(b)}")
+    ca = {repr(canon(generic(x[2]))) for x in a}
+    cb = {repr(canon(generic(x[2]))) for x in b}
+    if len(ca) == 1 and ca <= cb:
+        ctx.ok("R-SIBLING-PERIODIC", "the folded non-overlap condition of the two periodic constraints is the same function",
+               sample={"core": show(norm(generic(a[0][2])))[:300]})
+    else:
+        ctx.violation("R-SIBLING-PERIODIC", "ResourcePeriodicallyUnavailable.__init__", "periodic siblings disagree",
+                      f"ResourcePeriodicallyUnavailable folds as {show(norm(generic(a[0][2])))[:260]} while "
+                      f"ResourcePeriodicallyInterrupted (fixed-duration tasks) folds as {[show(norm(generic(x[2])))[:200] for x in b][:2]}: "
+                      f"one of the two is wrong", loc(a[0][1]))
+
+
+RULES = [r_rc_relation, r_attr, r_union_exh, r_sibling_periodic, lambda ctx: r_loopvar(ctx, bases=("Constraint",)), r_periodic_struct]
